@@ -1,25 +1,26 @@
 #!/bin/bash
-# usage: tools/verifyseed.sh <CXX>   -- confirms a sub-agent's seeded change in /tmp/wt-CXX myself:
-#   (a) the diff touches library code only and equals seeded_out/patch.diff, (b) demo.py exits 1 with it and 0 without,
-#   (c) the repository's whole test suite, run on the worktree with the change applied, still passes every baseline-stable test.
-# Never uses git stash (shared between worktrees).
-id="$1"; wt="/tmp/wt-$id"; pp="/tmp/wt-$id-path"
+# usage: tools/verifyseed.sh <top>   where <top>/cpppo is a sub-agent's scratch worktree of /repo (directory named cpppo, so
+# that the repository's suite runs exactly as in the baseline: cwd inside the tree, package importable as cpppo via PYTHONPATH=<top>).
+# Confirms the seeded change myself: (a) the diff touches library code only and equals seeded_out/patch.diff, (b) demo.py exits 1
+# with it and 0 without, (c) the repository's whole test suite on the worktree with the change applied still passes every
+# baseline-stable test.  Never uses git stash (shared between worktrees).
+top="$1"; wt="$top/cpppo"
 cd "$wt" || exit 2
-git diff > "/tmp/wt-$id-cur.patch"
+git diff > "$top/cur.patch"
 echo "== files changed:"; git diff --stat | cat
-if ! diff -q <(grep -v '^index ' "/tmp/wt-$id-cur.patch") <(grep -v '^index ' seeded_out/patch.diff) >/dev/null; then echo "!! worktree diff differs from seeded_out/patch.diff"; fi
-echo "== demo with change:"; (cd "$wt" && PYTHONPATH="$pp" timeout 120 /venv/bin/python seeded_out/demo.py 2>&1 | tail -4; echo "exit ${PIPESTATUS[0]}")
-git apply -R "/tmp/wt-$id-cur.patch" || { echo "cannot reverse"; exit 2; }
-echo "== demo without change:"; (cd "$wt" && PYTHONPATH="$pp" timeout 120 /venv/bin/python seeded_out/demo.py 2>&1 | tail -2; echo "exit ${PIPESTATUS[0]}")
-git apply "/tmp/wt-$id-cur.patch" || { echo "cannot re-apply"; exit 2; }
+if ! diff -q <(grep -v '^index ' "$top/cur.patch") <(grep -v '^index ' seeded_out/patch.diff) >/dev/null; then echo "!! worktree diff differs from seeded_out/patch.diff"; fi
+echo "== demo with change:"; (PYTHONPATH="$top" timeout 180 /venv/bin/python seeded_out/demo.py 2>&1 | tail -4; echo "exit ${PIPESTATUS[0]}")
+git apply -R "$top/cur.patch" || { echo "cannot reverse"; exit 2; }
+echo "== demo without change:"; (PYTHONPATH="$top" timeout 180 /venv/bin/python seeded_out/demo.py 2>&1 | tail -2; echo "exit ${PIPESTATUS[0]}")
+git apply "$top/cur.patch" || { echo "cannot re-apply"; exit 2; }
 echo "== test suite with change:"
-(cd "$pp" && /venv/bin/python -m pytest -q -p no:cacheprovider -c cpppo/pytest.ini --timeout=900 --continue-on-collection-errors --junitxml="/tmp/wt-$id-junit.xml" cpppo > "/tmp/wt-$id-tests.log" 2>&1; tail -1 "/tmp/wt-$id-tests.log")
-python3 - "$id" <<'PY'
+(PYTHONPATH="$top" /venv/bin/python -m pytest -ra -q -p no:cacheprovider --timeout=900 --continue-on-collection-errors --junitxml="$top/junit.xml" > "$top/tests.log" 2>&1; tail -1 "$top/tests.log")
+python3 - "$top" <<'PY'
 import json, sys, xml.etree.ElementTree as ET
 base = json.load(open('/root/.vp/BASELINE.json'))
 want = set(base['stable_pass'])
 passed = set()
-for tc in ET.parse('/tmp/wt-%s-junit.xml' % sys.argv[1]).getroot().iter('testcase'):
+for tc in ET.parse(sys.argv[1] + '/junit.xml').getroot().iter('testcase'):
     cn = tc.get('classname')
     cn = cn[6:] if cn.startswith('cpppo.') else cn
     if not any(ch.tag in ('failure', 'error', 'skipped') for ch in tc):
